@@ -236,9 +236,9 @@ NOT_APPLICABLE = {}
 
 MANIFEST_TEXT = {
     "C09": {
-        "text": "Lean theorem C09_mp4_total: for EVERY stream shorter than 2^64 bytes, seek-based or strict skip, and every configuration with max_metadata_size <= 4 x (2^32-1) and a 32-bit cumulative size, the model of mp4san's sanitize returns a value, a parse error or an I/O error - never a panic (no u64/u32 overflow, no unwrap/unreachable site) and never out of loop fuel (the scan loop ends within len/8+2 iterations since every iteration consumes at least a header). Proved with a program logic over I/O programs (Safe: rules for bind, read_exact, skip, position/length queries on the ideal cursor) and the loop invariant 'cursor is a u64, collected span lies behind it, kept ftyp/moov payloads within their limits'; the chunk-count sum cannot overflow because the counts are paid for by payload bytes (4 x sum <= payload length, proved through all five nesting levels of the lazily parsed tree); the rewrite and every tree combinator only propagate panics. With C11's simulation the same holds behind BufReader of any capacity. webpsan: theorem C09_webp_no_panic - for EVERY stream and configuration, seek-based or strict skip, the model of webpsan's sanitize never panics: the chunk-reader protocol assertions ('read_header must be read after peek_header'), the unreachable padding states, the stream_position()-8 underflow and codec reads on short buffers are dead, by the reader-stack invariant PeekInv carried through every function of the container walk in the same program logic; and C09_vp8l_no_panic - the lossless validator never panics for ANY payload and declared size (read_huffman only ever walks complete tries within their height; the unreachable! for a code-length symbol >= 19 is dead because the code-length code names only CODE_ORDER entries, a table regenerated from the source). Termination of the WebP model's chunk loops within len/8+2 iterations is not a theorem: an out-of-fuel value of the model is a DIFF in the correspondence check. The real crates are exercised under catch_unwind + watchdog with overflow checks and debug assertions over exhaustive truncation, bit/byte/field mutation, splices and sparse giants, both sanitizers, sync and async entry points; the model must reproduce every outcome and never yield its own panic/out-of-fuel value.",
-        "note": "WebP loop termination is enforced per generated case, not proved. Aborts and stack exhaustion are observable only as a dead harness process. Trusted: see evidence.",
-        "technique": "Lean 4 proof: Hoare-style program logic over I/O programs with a loop invariant (whole-program panic-freedom and termination of the MP4 model; whole-program panic-freedom of the WebP container walk and of the lossless validator), weight argument for the chunk-count sum; exhaustive truncation / mutation differential check under catch_unwind and a watchdog",
+        "text": "Lean theorem C09_mp4_total: for EVERY stream shorter than 2^64 bytes, seek-based or strict skip, and every configuration with max_metadata_size <= 4 x (2^32-1) and a 32-bit cumulative size, the model of mp4san's sanitize returns a value, a parse error or an I/O error - never a panic (no u64/u32 overflow, no unwrap/unreachable site) and never out of loop fuel (the scan loop ends within len/8+2 iterations since every iteration consumes at least a header). Proved with a program logic over I/O programs (Safe: rules for bind, read_exact, skip, position/length queries on the ideal cursor) and the loop invariant 'cursor is a u64, collected span lies behind it, kept ftyp/moov payloads within their limits'; the chunk-count sum cannot overflow because the counts are paid for by payload bytes (4 x sum <= payload length, proved through all five nesting levels of the lazily parsed tree); the rewrite and every tree combinator only propagate panics. With C11's simulation the same holds behind BufReader of any capacity. webpsan: theorems C09_webp_total / C09_webp_no_panic - for EVERY stream and configuration, seek-based or strict skip, the model of webpsan's sanitize returns Ok, a parse error or an I/O error: it never runs out of loop fuel (a header read from the stream costs 8 bytes that must exist, an ANMF body 16, so the unknown-chunk loops and the frame loop end within len/8+2 iterations from wherever they start) and never panics: the chunk-reader protocol assertions ('read_header must be read after peek_header'), the unreachable padding states, the stream_position()-8 underflow and codec reads on short buffers are dead, by the reader-stack invariant PeekInv carried through every function of the container walk in the same program logic; and C09_vp8l_no_panic - the lossless validator never panics for ANY payload and declared size (read_huffman only ever walks complete tries within their height; the unreachable! for a code-length symbol >= 19 is dead because the code-length code names only CODE_ORDER entries, a table regenerated from the source). The real crates are exercised under catch_unwind + watchdog with overflow checks and debug assertions over exhaustive truncation, bit/byte/field mutation, splices and sparse giants, both sanitizers, sync and async entry points; the model must reproduce every outcome and never yield its own panic/out-of-fuel value.",
+        "note": "Aborts and stack exhaustion are observable only as a dead harness process. Trusted: see evidence.",
+        "technique": "Lean 4 proof: Hoare-style program logic over I/O programs with a loop invariant (whole-program panic-freedom and termination of the MP4 model; whole-program panic-freedom and termination of the WebP container walk, panic-freedom of the lossless validator), weight argument for the chunk-count sum; exhaustive truncation / mutation differential check under catch_unwind and a watchdog",
     },
     "C10": {
         "text": "Lean theorems: every read request the MP4 sanitizer program can issue, on any input, is for at most max(max_metadata_size, 1024) bytes, and a declared payload above the limit fails with InvalidInput before any I/O (C10_request_bound, C10_limit_before_alloc); after the header of any box other than ftyp/moov the iteration contains no read at all - only position/length queries and one skip (C10_media_not_read, a structural fact about the program); the outcome of any program on the ideal cursor depends only on the stream length and the bytes in the ranges it reads (C10_noninterference); through BufReader(cap), for every underlying reader, program and input, bytes delivered <= bytes returned by completed reads + cap x completed skips + cap at every point of the run (C10_physical_reads, an invariant proved per operation and lifted over I/O programs); the planned padding never exceeds the metadata, so the result is at most twice the re-encoded boxes (C10_pad_bounded). Correspondence and measurement on the real crates: metering Read+Skip and counting allocator over sparse multi-GiB layouts and adversarial size fields; exact agreement of read ranges with the model; webpsan peak heap against a constant for declared images up to 16384x16384 and chunks up to 2^32-30 bytes.",
